@@ -24,7 +24,7 @@ InitCur == [model |-> EmptyModel, memo |-> <<>>, other |-> EmptyModel,
             m0 |-> EmptyModel, m1 |-> EmptyModel, gen |-> 0, wd |-> <<>>, wmemo |-> <<>>, fmt |-> "",
             pj |-> [out |-> "none", anom |-> <<>>, post |-> EmptyModel]]
 
-EditActions == {"EditCard", "EditAddChild", "EditRemoveKid", "EditReplaceKid", "EditAbstract", "EditAttrVal", "EditRemoveCtc",
+EditActions == {"EditCard", "EditAddChild", "EditRemoveKid", "EditReplaceKid", "EditMove", "EditImport", "EditAbstract", "EditAttrVal", "EditRemoveCtc",
                 "EditCtcOp", "EditRename"}
 BuilderActions == {"NewModel", "AddRelation", "SetAbstract", "SetType", "SetFCard",
                    "AddAttribute", "AddConstraint", "ReplaceConstraint"} \cup EditActions
@@ -61,6 +61,10 @@ BuildExpected(cur, e) ==
     [] e.a = "EditReplaceKid" -> LET j == RelIdx(cur.model, e.args.o, e.args.ri)
                                      k == CHOOSE k \in DOMAIN cur.model.rels[j].kids : cur.model.rels[j].kids[k] = e.args.n
                                  IN  ReplaceKidF(cur.model, j, k)
+    [] e.a = "EditMove"      -> LET j == RelIdx(cur.model, e.args.o, e.args.ri)
+                                    k == CHOOSE k \in DOMAIN cur.model.rels[j].kids : cur.model.rels[j].kids[k] = e.args.n
+                                IN  MoveKidF(cur.model, j, k, RelIdx(cur.model, e.args.o2, e.args.ri2))
+    [] e.a = "EditImport"    -> ImportF(cur.model, e.args.ctcs)
     [] e.a = "EditAbstract"  -> ToggleAbstractF(cur.model, e.args.f)
     [] e.a = "EditAttrVal"   -> SetAttrValF(cur.model, e.args.f, e.args.k, e.args.val)
     [] e.a = "EditRemoveCtc" -> RemoveCtcF(cur.model, e.args.i)
@@ -72,6 +76,8 @@ EditArgsOK(cur, e) ==
   CASE e.a \in {"EditCard", "EditAddChild"} -> HasRel(m, e.args.o, e.args.ri)
     [] e.a \in {"EditRemoveKid", "EditReplaceKid"} ->
                                 HasRel(m, e.args.o, e.args.ri) /\ e.args.n \in Kids(m.rels[RelIdx(m, e.args.o, e.args.ri)])
+    [] e.a = "EditMove" -> /\ HasRel(m, e.args.o, e.args.ri) /\ HasRel(m, e.args.o2, e.args.ri2)
+                           /\ e.args.n \in Kids(m.rels[RelIdx(m, e.args.o, e.args.ri)])
     [] e.a \in {"EditAbstract", "EditRename"} -> e.args.f \in Names(m)
     [] e.a = "EditAttrVal" -> e.args.f \in Names(m) /\ e.args.k \in DOMAIN FeatOf(m, e.args.f).attrs
     [] e.a \in {"EditRemoveCtc", "EditCtcOp"} -> e.args.i \in DOMAIN m.ctcs
